@@ -116,6 +116,19 @@ static uint64_t battery(bool thorough, uint64_t seed, Out *o, long *count) {
     bool mesh = r.chance(60);
     std::unique_ptr<PointCloud> g = mesh ? std::unique_ptr<PointCloud>(gen_mesh(r).release()) : gen_pc(r);
     if (!g) continue;
+    { // one ExpertEncoder used for several encodes with option changes in between (automatic method selection each time) against a fresh
+      // ExpertEncoder that received the same setter calls but never encoded: an encode must not leave anything behind in the object
+      std::unique_ptr<ExpertEncoder> X(mesh ? new ExpertEncoder(static_cast<const Mesh &>(*g)) : new ExpertEncoder(*g));
+      struct Set { int kind, a, b; }; std::vector<Set> hist; const int pos_id = g->GetNamedAttributeId(GeometryAttribute::POSITION);
+      auto apply = [&](ExpertEncoder &e, const Set &st) { if (st.kind == 0) e.SetSpeedOptions(st.a, st.b); else if (st.kind == 1) e.SetAttributeQuantization(st.a, st.b); else e.SetUseBuiltInAttributeCompression(st.a != 0); };
+      for (int step = 0; step < 3; step++) { Set st; int w = (int)r.below(10);
+        if (w < 5) st = {0, r.chance(40) ? 10 : (int)r.below(10), r.chance(40) ? 10 : (int)r.below(10)}; else if (w < 9 && pos_id >= 0) st = {1, pos_id, r.chance(30) ? 0 : (int)r.range(6, 14)}; else st = {2, (int)r.below(2), 0};
+        hist.push_back(st); apply(*X, st);
+        EncoderBuffer bx, by; bool okx = X->EncodeToBuffer(&bx).ok();
+        std::unique_ptr<ExpertEncoder> Y(mesh ? new ExpertEncoder(static_cast<const Mesh &>(*g)) : new ExpertEncoder(*g)); for (auto &h : hist) apply(*Y, h); bool oky = Y->EncodeToBuffer(&by).ok();
+        (*count)++; fp = fnv(fp, by.data(), by.size());
+        if (o && (okx != oky || bx.size() != by.size() || memcmp(bx.data(), by.data(), by.size()) != 0))
+          o->fail(std::string("C06 an ExpertEncoder that has encoded before behaves differently from a fresh one with the same option calls (step ") + S(step) + ", " + (okx ? U(bx.size()) + " bytes" : std::string("fails")) + " vs " + (oky ? U(by.size()) + " bytes" : std::string("fails")) + "): " + (mesh ? "mesh" : "pc") + " geo#" + S(i)); } }
     int nopt = thorough ? 4 : 3;
     for (int k = 0; k < nopt; k++) {
       Opt op; op.mesh = mesh; op.method = mesh ? (r.chance(70) ? MESH_EDGEBREAKER_ENCODING : MESH_SEQUENTIAL_ENCODING) : (r.chance(50) ? POINT_CLOUD_KD_TREE_ENCODING : POINT_CLOUD_SEQUENTIAL_ENCODING);
